@@ -46,6 +46,9 @@ type Checker struct {
 	anchorFirst map[string]TS     // data id → block time of first anchoring
 
 	basketInvBroken bool // verdict of the basket-supply invariant at the previous item
+	// feeBurned: basket denom → basket tokens burned as class/basket creation fees (known finding:
+	// a creation fee may be set in a basket denom; burning it removes backing-less supply)
+	feeBurned map[string]*big.Int
 
 	// current step
 	it   *chain.Item
@@ -67,7 +70,7 @@ func NewChecker(tr *chain.Trace, traceFile, family string) *Checker {
 		acct: map[string]string{}, gov: KeyGov, hasher: tr.Options.HasherKind,
 		issued: map[string]*big.Rat{}, issuedBad: map[string]bool{}, origins: map[string]string{}, originsCI: map[string]string{},
 		contracts: map[string]string{}, nextClass: map[string]uint64{}, nextProject: map[string]uint64{}, nextBatch: map[string]uint64{},
-		iriID: map[string]string{}, anchorFirst: map[string]TS{},
+		iriID: map[string]string{}, anchorFirst: map[string]TS{}, feeBurned: map[string]*big.Int{},
 	}
 	for _, a := range tr.Accounts {
 		c.acct[a.Bech32] = fmt.Sprintf("#%d", a.Index)
@@ -173,7 +176,7 @@ func (c *Checker) report(prop, key, desc string, rows interface{}) {
 	if rows != nil {
 		in["rows"] = rows
 	}
-	c.Out = append(c.Out, Violation{Property: prop, Key: key, Desc: desc, Input: in})
+	c.Out = append(c.Out, Violation{Property: prop, Key: key, Desc: clip(desc, 1500), Input: in})
 }
 
 func clip(s string, n int) string {
@@ -220,6 +223,11 @@ func (c *Checker) Step(pre, post *chain.State, it *chain.Item, msgs []sdk.Msg) {
 	c.pre, c.post = c.view(pre), c.view(post)
 	defer func() { c.pre, c.post = nil, nil }()
 	ok := it.Result.OK
+	var msg sdk.Msg
+	if it.Kind == chain.KindMsg && len(msgs) == 1 {
+		msg = msgs[0]
+	}
+	c.noteFeeBurn(msg, ok)
 
 	// state monitors on the post state
 	c.checkC01()
@@ -241,10 +249,7 @@ func (c *Checker) Step(pre, post *chain.State, it *chain.Item, msgs []sdk.Msg) {
 		c.report("C10", "failed-msg-nonempty-diff", "a failed message left a trace in state", it.Diff)
 		c.report("C03", "failed-msg-changed-state", "a failed message changed state", it.Diff)
 	}
-	var msg sdk.Msg
-	if len(msgs) == 1 {
-		msg = msgs[0]
-	}
+	c.checkExpectation(ok)
 	c.checkC03Msg(msg, ok)
 	c.checkC02After(msg, ok)
 	if msg == nil {
